@@ -272,7 +272,26 @@ def w_h_nocache(d):
 
 
 # further write workloads; indices continue after the read-only scans (keeps older replay files valid)
-WORKLOADS2 = [("sd_dims", w_sd_dims), ("gr_rle8", w_gr_rle8), ("h_nocache", w_h_nocache)]
+def w_sd_recompress(d):
+    """a dataset stored uncompressed in one session is given a compression in the next one (the library reads the
+    stored data back and rewrites them as a compressed element), then rewritten"""
+    p = Prog()
+    f = os.path.join(d, "rc.hdf")
+    p.call("i", "SDstart", f, 7, bind="sd")
+    p.call("i", "SDcreate", V("sd"), "a", 22, 2, i32s(6, 5), bind="s")
+    p.call("i", "SDwritedata", V("s"), i32s(0, 0), None, i32s(6, 5), _vals("int16", 5, 30))
+    p.call("i", "SDendaccess", V("s"))
+    p.call("i", "SDend", V("sd"))
+    p.call("i", "SDstart", f, 3, bind="sd")
+    p.call("i", "SDselect", V("sd"), 0, bind="s")
+    p.call("i", "SDsetcompress", V("s"), 4, cinfo(6))
+    p.call("i", "SDwritedata", V("s"), i32s(0, 0), None, i32s(6, 5), _vals("int16", 9, 30))
+    p.call("i", "SDendaccess", V("s"))
+    p.call("i", "SDend", V("sd"))
+    return p, [f]
+
+
+WORKLOADS2 = [("sd_dims", w_sd_dims), ("gr_rle8", w_gr_rle8), ("h_nocache", w_h_nocache), ("sd_recompress", w_sd_recompress)]
 
 
 def w_read_scan(d):
